@@ -11,7 +11,7 @@ func init() {
 		Assumptions: []string{"the Go-heap lists (snapshots, gcsnapshots, dbInstances, freeq) need no barrier (inactive barrier)"},
 		Run: func(c *Ctx) {
 			c.Do("C04.a", "L2+callgraph barrier bracket", 6, func() { clBarrierBracket(c); clStoreCursorsClosed(c) })
-			c.Do("C04.b", "L11 no dereference after the session ended", 6, func() { clRefreshCopies(c); clSkiplistRefreshOrder(c); clNoUseAfterSession(c) })
+			c.Do("C04.b", "L11 no dereference after the session ended", 6, func() { clRefreshCopies(c); clSkiplistRefreshOrder(c); clNoUseAfterSession(c); clVisitorPivotCopies(c) })
 			c.Do("C04.c", "L3+L11 free contexts", 15, func() { clFreeContexts(c) })
 			c.Do("C04.d", "L2+L3 retire after unlink, single producer", 6, func() { clCollectionWorker(c, "C04.d"); clFreeFeed(c) })
 			c.Do("C04.e", "L1 overtaken insert stops linking", 1, func() { clInsertStopsWhenMarked(c) })
